@@ -41,8 +41,8 @@ Definition S_MAX_FRAME_SIZE : N := 5.          Definition S_MAX_HEADER_LIST_SIZE
 Definition S_ENABLE_CONNECT_PROTOCOL : N := 8.
 
 (* section 4.2: bounds of SETTINGS_MAX_FRAME_SIZE *)
-Definition MIN_MAX_FRAME_SIZE : N := 16384.        (* 2^14 *)
-Definition MAX_MAX_FRAME_SIZE : N := 16777215.     (* 2^24 - 1 *)
+Definition FRAME_SIZE_LOWER_BOUND : N := 16384.        (* 2^14 *)
+Definition FRAME_SIZE_UPPER_BOUND : N := 16777215.     (* 2^24 - 1 *)
 Definition MAX_FLOW_WINDOW : N := 2147483647.      (* 2^31 - 1 *)
 
 (* [bit] is a power of two: is it set in the flags octet? *)
@@ -126,7 +126,7 @@ Definition param_error (p : N * N) : option N :=
   if id =? S_ENABLE_PUSH then (if v <=? 1 then None else Some PROTOCOL_ERROR)
   else if id =? S_INITIAL_WINDOW_SIZE then (if v <=? MAX_FLOW_WINDOW then None else Some FLOW_CONTROL_ERROR)
   else if id =? S_MAX_FRAME_SIZE then
-    (if (MIN_MAX_FRAME_SIZE <=? v) && (v <=? MAX_MAX_FRAME_SIZE) then None else Some PROTOCOL_ERROR)
+    (if (FRAME_SIZE_LOWER_BOUND <=? v) && (v <=? FRAME_SIZE_UPPER_BOUND) then None else Some PROTOCOL_ERROR)
   else if id =? S_ENABLE_CONNECT_PROTOCOL then (if v <=? 1 then None else Some PROTOCOL_ERROR)
   else None.                                    (* unknown identifiers MUST be ignored *)
 
@@ -262,15 +262,20 @@ Definition parse_payload (ty fl sid : N) (payload : list N) : rfc_result :=
     (* 4.1: implementations MUST ignore and discard frames of unknown types *)
     Accept (WUnknown ty fl sid payload).
 
-(* section 4.1 + 4.2: [bs] must be exactly one frame; a frame longer than the receiver's
-   advertised SETTINGS_MAX_FRAME_SIZE is a FRAME_SIZE_ERROR *)
+(* section 4.1 + 4.2: a frame whose Length exceeds the receiver's advertised
+   SETTINGS_MAX_FRAME_SIZE is a FRAME_SIZE_ERROR -- decided from the Length field alone, the
+   payload need not be there; otherwise [bs] must be exactly one frame *)
 Definition rfc_parse_frame (max_frame_size : N) (bs : list N) : rfc_result :=
   match bs with
-  | l2 :: l1 :: l0 :: ty :: fl :: s3 :: s2 :: s1 :: s0 :: payload =>
+  | l2 :: l1 :: l0 :: after_length =>
       let len := l2 * 65536 + l1 * 256 + l0 in
-      if negb (len =? olen payload) then NotOneFrame
-      else if max_frame_size <? len then Reject FRAME_SIZE_ERROR
-      else parse_payload ty fl (u31_of s3 s2 s1 s0) payload
+      if max_frame_size <? len then Reject FRAME_SIZE_ERROR else
+      match after_length with
+      | ty :: fl :: s3 :: s2 :: s1 :: s0 :: payload =>
+          if negb (len =? olen payload) then NotOneFrame
+          else parse_payload ty fl (u31_of s3 s2 s1 s0) payload
+      | _ => NotOneFrame
+      end
   | _ => NotOneFrame
   end.
 
